@@ -205,6 +205,10 @@ def revise_namespaces(
         if deleted and blockers:
             for reason, message in blockers:
                 logger.debug(f"Namespace {namespace!r} termination pending: {reason}: {message}")
+            # It still exists, and its content still needs us (e.g. to release our finalizers) --- also
+            # if we see it for the first time: in the initial listing after the operator's restart.
+            if matched and raw_event['type'] != 'DELETED':
+                insights.namespaces.add(namespace)
         elif deleted:
             insights.namespaces.discard(namespace)
         elif matched:
